@@ -574,7 +574,14 @@ def run(ctx):
     prog = ctx.prog("dfs", "N")
     return [rule_bounds(prog), rule_body_read_failure(prog), rule_volume_extent(prog),
             rule_window_consistency(prog), rule_view_limit_is_own_geometry(prog), _shared_slot_position(prog),
-            rule_every_volume_is_trimmed(prog), _shared_probe_rule(prog)]
+            rule_every_volume_is_trimmed(prog), _shared_probe_rule(prog), _shared_static_state(prog)]
+
+
+def _shared_static_state(prog):
+    from . import c10
+    r = c10.rule_no_carried_static_state(prog)
+    r.rule = "R-C17-9"       # no storage shared between the drives: a sector read from one surface cannot answer for another
+    return r
 
 
 def _shared_probe_rule(prog):
